@@ -13,6 +13,9 @@
 #include "util/NetworkUtilityFunctions.h"
 #include "dataio/TCPSocketDataIO.h"  // to get the proper #includes for recv()'ing
 #include "system/SetupSystem.h"      // for GetCurrentThreadID()
+#ifdef MUSCLE_VERIF_HOOKS
+# include "system/VerifHooks.h"
+#endif
 
 #if defined(MUSCLE_USE_QT_THREADS) && defined(MUSCLE_ENABLE_QTHREAD_EVENT_LOOP_INTEGRATION)
 # include "platform/qt/QMessageTransceiverThread.h"   // for MuscleQThreadSocketNotifier
@@ -126,6 +129,9 @@ status_t Thread :: StartInternalThreadAux()
 
 status_t Thread :: StartInternalThreadAuxAux()
 {
+#ifdef MUSCLE_VERIF_HOOKS
+   (void) MUSCLE_VERIF_HOOK(MUSCLE_VH_THREAD_SPAWN, this, 0);  // in the parent thread, before the new thread exists
+#endif
 #if defined(MUSCLE_USE_CPLUSPLUS11_THREADS)
 # if !defined(MUSCLE_NO_EXCEPTIONS)
    try {
@@ -213,6 +219,9 @@ void Thread :: SignalOwner()
 
 void Thread :: SignalAux(int whichSocket)
 {
+#ifdef MUSCLE_VERIF_HOOKS
+   if (_useMessagingSockets) (void) MUSCLE_VERIF_HOOK(MUSCLE_VH_SIG_SEND, this, (whichSocket==MESSAGE_THREAD_OWNER)?MESSAGE_THREAD_INTERNAL:MESSAGE_THREAD_OWNER);  // arg = index of the side that will be woken
+#endif
    if (_useMessagingSockets)
    {
       if (_messageSocketsAllocated)
@@ -262,6 +271,9 @@ status_t Thread :: WaitForNextMessageAux(ThreadSpecificData & tsd, MessageRef & 
       // Be sure to always absorb any signal-bytes that were sent to us, now that we've been awoken,
       // otherwise we could end up in a CPU-burning loop with select() always returning immediately
       // This won't block because we always set up the _messageSocket sockets to be in non-blocking mode.
+#ifdef MUSCLE_VERIF_HOOKS
+      (void) MUSCLE_VERIF_HOOK(MUSCLE_VH_SIG_DRAIN, this, (int)(&tsd-_threadData));  // arg = index of the side whose pending signal bytes are absorbed now
+#endif
       uint8 bytes[256];
       (void) recv_ignore_eintr(tsd._messageSocket.GetFileDescriptor(), (char *)bytes, sizeof(bytes), 0);
    }
@@ -299,6 +311,14 @@ status_t Thread :: WaitForNextMessageAux(ThreadSpecificData & tsd, MessageRef & 
          }
       }
       (void) tsd._multiplexer.RegisterSocketForReadReady(msgfd);
+#ifdef MUSCLE_VERIF_HOOKS
+      switch(MUSCLE_VERIF_HOOK(MUSCLE_VH_SIG_WAIT, this, (((int)(&tsd-_threadData))*2)+((wakeupTime != MUSCLE_TIME_NEVER)?1:0)))  // arg = 2*(index of the waiting side) + (1 iff timed)
+      {
+         case 1:  wakeupTime = 0;                 break;  // the harness's schedule says: the time-out fires now (poll only)
+         case 2:  wakeupTime = MUSCLE_TIME_NEVER; break;  // the harness's schedule says: a signal is pending (virtual time: never consult the clock)
+         default: /* empty */                     break;
+      }
+#endif
 
       MRETURN_ON_ERROR(tsd._multiplexer.WaitForEvents(wakeupTime));
 
@@ -384,6 +404,9 @@ status_t Thread :: MessageReceivedFromOwner(const MessageRef & ref, uint32)
 
 status_t Thread :: WaitForInternalThreadToExit()
 {
+#ifdef MUSCLE_VERIF_HOOKS
+      (void) MUSCLE_VERIF_HOOK(MUSCLE_VH_THREAD_JOIN, this, 0);  // in the joining thread, before it blocks in join
+#endif
    if (_threadRunning)
    {
       status_t ret;
@@ -426,6 +449,9 @@ Thread * Thread :: GetCurrentThread()
 // This method is here to 'wrap' the internal thread's virtual method call with some standard setup/tear-down code of our own
 void Thread::InternalThreadEntryAux()
 {
+#ifdef MUSCLE_VERIF_HOOKS
+   (void) MUSCLE_VERIF_HOOK(MUSCLE_VH_THREAD_START, this, 0);  // first action of the new thread
+#endif
 #if defined(__linux__)
    _threadTid = syscall(SYS_gettid);  // was: gettid(), but some versions of libc didn't define that properly
 #endif
@@ -462,6 +488,9 @@ void Thread::InternalThreadEntryAux()
    }
 
    _threadStackBase = NULL;
+#ifdef MUSCLE_VERIF_HOOKS
+   (void) MUSCLE_VERIF_HOOK(MUSCLE_VH_THREAD_EXIT, this, 0);  // last action of the internal thread
+#endif
 }
 
 Thread::muscle_thread_key Thread :: GetCurrentThreadKey()
